@@ -1,5 +1,5 @@
 SPECIFICATION MSpec
 CONSTANTS
   MaxTotal = 7
-INVARIANTS ProofComplete ProofSound RootsDistinct WrongTotalStillSound
+INVARIANTS ProofComplete ProofSound EmptyRootNeverVerifies RootsDistinct WrongTotalStillSound
 CHECK_DEADLOCK FALSE
